@@ -41,7 +41,7 @@ type RecoveryReplay struct {
 const c03Rule = "rapid-generated sequential workloads (C01 operations, Flush, iteration, primary and index GC cycles with and without unflushed changes and call budgets, Close/reopen through snapshot and rescan) run with a handler on the named points that captures the directory before every file-system step; " +
 	"crash states = every captured image + for every single write between two images every byte prefix of the written region (append, create, in-place rewrite = truncate+write, positional overwrite); steps that change more than one thing between two points are counted as hook_gaps. Quick: a few drawn states per workload; thorough: every state of every workload (exhaustive per workload up to a cap), plus states captured inside the recovery open itself (second level); after the post-recovery history the recovered store is flushed and its files copied once more (a second crash after a completed flush), and the copy must hold exactly the model. " +
 	"oracle = durability model: OpenStore on the image must succeed; every key reads without error a value it had between the last completed Flush/Close and the operation in progress at the crash (every instant at which the same bytes were on disk must be satisfied), never bytes never written for it; Has/GetSize agree; then a generated suffix (puts, removes, flushes, GC cycles, reopen) must behave exactly like the map model seeded with what was read. " +
-	suspRuleText + " (fsck clauses are judged by C07). " +
+	suspRuleText + " (fsck clauses are judged by C07). " + volCrashRuleText + ". " +
 	"non-trivial = a state strictly inside an operation (not between operations) of a workload that superseded a flushed key; distinct = distinct (image hash, expectations)"
 
 func genCrashCase(t *rapid.T) CrashCase {
@@ -400,6 +400,19 @@ func TestC03(t *testing.T) {
 	ev.Assumptions = []string{"process-crash model: completed system calls are durable; power loss and reordering of unsynced writes are out of scope",
 		"positional overwrites of at most 4 bytes (GC marks) are treated as atomic"}
 	isFsck := func(v *Violation) bool { return strings.HasPrefix(v.Signature, "fsck|") }
+	if envReplay != "" && bytes.Contains(readReplayRaw(envReplay).Case, []byte(`"vc_workers"`)) {
+		var c VCCase
+		readReplay(envReplay, &c)
+		for i := 0; i < 30; i++ {
+			_, v := runVolCrash(c, false)
+			ev.Record(c, true, "volume-crash")
+			if v != nil {
+				ev.Report(v, c)
+				t.Fatalf("replay: %v", v)
+			}
+		}
+		return
+	}
 	if envReplay != "" && bytes.Contains(readReplayRaw(envReplay).Case, []byte(`"fg"`)) {
 		var sc SuspCase
 		readReplay(envReplay, &sc)
@@ -565,7 +578,7 @@ func TestC03(t *testing.T) {
 	}
 	setRapidChecks(budget(2400, 600))
 	rapid.Check(t, func(rt *rapid.T) {
-		if pastDeadline() || os.Getenv("VERIF_FOCUS") == "susp" { // the latter: development aid
+		if pastDeadline() || os.Getenv("VERIF_FOCUS") == "susp" || os.Getenv("VERIF_FOCUS") == "volcrash" { // the latter: development aids
 			ev.Skip()
 			return
 		}
@@ -589,8 +602,30 @@ func TestC03(t *testing.T) {
 	}
 	// A crash while a call is suspended between its sub-steps and a flush of
 	// another task has completed (suspended.go); fsck clauses are C07's.
-	if !t.Failed() {
+	if !t.Failed() && os.Getenv("VERIF_FOCUS") != "volcrash" {
 		runSuspCampaign(t, ev, budget(3200, 6000), false, func(v *Violation) bool { return !isFsck(v) })
 	}
+	// Crash right after a Flush call returned, with free-running writers
+	// (volcrash.go): windows without a named point.
+	if !t.Failed() {
+		runVolCrashCampaign(t, ev, budget(240, 1200), false)
+	}
 	ev.finish(t)
+}
+
+func runVolCrashCampaign(t *testing.T, ev *Evidence, n int, withFsck bool) {
+	setRapidChecks(n)
+	rapid.Check(t, func(rt *rapid.T) {
+		if pastDeadline() {
+			ev.Skip()
+			return
+		}
+		c := genVolCrash(rt)
+		st, v := runVolCrash(c, withFsck)
+		ev.Record(c, st.images >= 2 && st.puts >= 20, "volume-crash")
+		ev.Class("volume-crash:images", st.images)
+		if v != nil && ev.Report(v, c) {
+			rt.Fatalf("%v", v)
+		}
+	})
 }
